@@ -22,13 +22,15 @@ Inductive ty :=
 | TSArr (t : ty) (n : Z)
 | TDArr (t : ty) (cap : Z)
 | TStruct (fs : list ty)
-| TMap (k v : ty).                   (* HashMap[k, v]: storage only; keys are integers / bool / address *)
+| TMap (k v : ty)                    (* HashMap[k, v]: storage only; keys are integers / bool / address *)
+| TBytes (n : Z).                    (* Bytes[n] *)
 
 Inductive value :=
 | VInt (z : Z)
 | VBool (b : bool)
 | VList (l : list value)           (* static array, DynArray (its live prefix), struct, unit = VList [] *)
-| VMap (dflt : value) (m : list (Z * value)).   (* HashMap: explicitly written keys; every other key holds dflt *)
+| VMap (dflt : value) (m : list (Z * value))    (* HashMap: explicitly written keys; every other key holds dflt *)
+| VBytes (l : list Z).                           (* byte string (each element in 0..255) *)
 
 Definition int_lo (bits : Z) (signed : bool) : Z := if signed then - 2 ^ (bits - 1) else 0.
 Definition int_hi (bits : Z) (signed : bool) : Z := if signed then 2 ^ (bits - 1) - 1 else 2 ^ bits - 1.
@@ -48,6 +50,7 @@ Fixpoint zero_of (t : ty) : value :=
   | TStruct fs => VList ((fix go (l : list ty) : list value :=
                             match l with [] => [] | x :: r => zero_of x :: go r end) fs)
   | TMap _ v => VMap (zero_of v) []
+  | TBytes _ => VBytes []
   end.
 
 (* does a value inhabit a type (used for ABI validation of external arguments) *)
@@ -56,6 +59,7 @@ Fixpoint has_type (fuel : nat) (t : ty) (v : value) : bool :=
   match t, v with
   | TInt bits sg, VInt z => in_range bits sg z
   | TBool, VBool _ => true
+  | TBytes n, VBytes l => (Z.of_nat (length l) <=? n) && forallb (fun b => (0 <=? b) && (b <? 256)) l
   | TAddr, VInt z => in_range 160 false z
   | TSArr t n, VList l => (Z.of_nat (length l) =? n) && forallb (has_type f t) l
   | TDArr t cap, VList l => (Z.of_nat (length l) <=? cap) && forallb (has_type f t) l
@@ -96,7 +100,9 @@ Inductive expr :=
 | ESender
 | EValue
 | EList (l : list expr)                (* [a, b, ...] or Struct(f=a, ...) *)
-| EPop (b : tbase) (p : list (expr + nat)).   (* target.pop(); path element = inl index-expr | inr field *)
+| EPop (b : tbase) (p : list (expr + nat))    (* target.pop(); path element = inl index-expr | inr field *)
+| EConcat (a b : expr)                 (* concat(a, b) on Bytes *)
+| ESlice (a start len : expr).         (* slice(a, start, len) on Bytes: reverts unless start + len <= len(a) *)
 
 Definition path := list (expr + nat).
 
@@ -259,6 +265,13 @@ Definition arith (op : binop) (bits : Z) (sg : bool) (a b : Z) : option Z :=
   | BXor => Some (Z.lxor a b)
   end.
 
+Fixpoint bytes_eqb (a b : list Z) : bool :=
+  match a, b with
+  | [], [] => true
+  | x :: a', y :: b' => Z.eqb x y && bytes_eqb a' b'
+  | _, _ => false
+  end.
+
 Definition cmp_int (op : cmpop) (a b : Z) : bool :=
   match op with
   | Lt => a <? b | Le => a <=? b | Gt => a >? b | Ge => a >=? b | Eq => a =? b | Ne => negb (a =? b)
@@ -333,6 +346,12 @@ Fixpoint eval (fuel : nat) (e : expr) (s : state) {struct fuel} : R value :=
           | Ne => ret (VBool (negb (Bool.eqb x y))) s2
           | _ => Fail Stuck
           end
+      | VBytes x, VBytes y =>
+          match op with
+          | Eq => ret (VBool (bytes_eqb x y)) s2
+          | Ne => ret (VBool (negb (bytes_eqb x y))) s2
+          | _ => Fail Stuck
+          end
       | _, _ => Fail Stuck
       end
   | EAnd a b =>
@@ -389,7 +408,11 @@ Fixpoint eval (fuel : nat) (e : expr) (s : state) {struct fuel} : R value :=
       end
   | ELen a =>
       do va, s1 <- eval f a s;
-      match va with VList l => ret (VInt (Z.of_nat (length l))) s1 | _ => Fail Stuck end
+      match va with
+      | VList l => ret (VInt (Z.of_nat (length l))) s1
+      | VBytes l => ret (VInt (Z.of_nat (length l))) s1
+      | _ => Fail Stuck
+      end
   | EMin a b =>
       do va, s1 <- eval f a s;
       do vb, s2 <- eval f b s1;
@@ -410,6 +433,24 @@ Fixpoint eval (fuel : nat) (e : expr) (s : state) {struct fuel} : R value :=
   | EList l =>
       do vs, s1 <- eval_list f l s;
       ret (VList vs) s1
+  | EConcat a b =>
+      do va, s1 <- eval f a s;
+      do vb, s2 <- eval f b s1;
+      match va, vb with
+      | VBytes x, VBytes y => ret (VBytes (x ++ y)) s2
+      | _, _ => Fail Stuck
+      end
+  | ESlice a st ln =>
+      do va, s1 <- eval f a s;
+      do vs, s2 <- eval f st s1;
+      do vl, s3 <- eval f ln s2;
+      match va, vs, vl with
+      | VBytes x, VInt i, VInt n =>
+          if (0 <=? i) && (0 <=? n) && (i + n <=? Z.of_nat (length x)) then
+            ret (VBytes (firstn (Z.to_nat n) (skipn (Z.to_nat i) x))) s3
+          else Fail Revert
+      | _, _, _ => Fail Stuck
+      end
   | EPop b p =>
       match base_get b s with
       | None => Fail Stuck
@@ -699,8 +740,9 @@ Fixpoint depth_e (e : expr) : nat :=
       end in
   match e with
   | EConst _ | EVar _ | ESelf _ | ETra _ | ESender | EValue => 1
-  | EBin _ _ a b | ECmp _ a b | EAnd a b | EOr a b | EIdx a b | EMin a b | EMax a b =>
+  | EBin _ _ a b | ECmp _ a b | EAnd a b | EOr a b | EIdx a b | EMin a b | EMax a b | EConcat a b =>
       S (Nat.max (depth_e a) (depth_e b))
+  | ESlice a b c => S (Nat.max (depth_e a) (Nat.max (depth_e b) (depth_e c)))
   | ENot a | ENeg _ a | EFld a _ | ELen a | EConv _ a => S (depth_e a)
   | EIfExp c a b => S (Nat.max (depth_e c) (Nat.max (depth_e a) (depth_e b)))
   | ECall _ args => S (S (depth_l args))     (* + the callee, accounted per call level *)
